@@ -17,37 +17,37 @@
 
 #include "djv.hpp"
 #include "djv_values.hpp"
+#include "djv_state.hpp"
 
 using namespace djv;
 namespace dj = djinterop;
 namespace e = djinterop::engine;
 namespace fs = std::filesystem;
 
-namespace
+namespace djv
 {
-struct state
+namespace lib
 {
-    std::optional<dj::database> db;
-    std::map<std::string, dj::crate> crates;
-    std::map<std::string, dj::track> tracks;
-    std::string dir;       // library directory ("" for in-memory)
-    std::string schema;    // enumerator name
-    bool disk = false;
-    int ndirs = 0;
-    std::vector<std::string> made_dirs;
-    ~state()
+state::~state()
+{
+    tracks.clear();
+    crates.clear();
+    db.reset();
+    for (auto& d : made_dirs)
     {
-        tracks.clear();
-        crates.clear();
-        db.reset();
-        for (auto& d : made_dirs)
-        {
-            std::error_code ec;
-            fs::remove_all(d, ec);
-        }
+        std::error_code ec;
+        fs::remove_all(d, ec);
     }
-};
+}
 state S;
+
+void reset_all()
+{
+    S.tracks.clear();
+    S.crates.clear();
+    S.db.reset();
+    g_wrap.handles.clear();
+}
 
 const std::vector<std::pair<std::string, e::engine_schema>>& schema_names()
 {
@@ -126,9 +126,6 @@ std::optional<std::string> rd_ostr(cursor& c)
     if (t.empty() || t[0] != 's') throw bad_command{"opt string"};
     return parse_hexstr(t.substr(1));
 }
-template <class T>
-std::string io_(const std::optional<T>& v) { return v ? std::to_string((long long)*v) : "none"; }
-std::string uo_(const std::optional<unsigned long long>& v) { return v ? std::to_string(*v) : "none"; }
 
 dj::track_snapshot rd_snapshot(cursor& c)
 {
@@ -284,7 +281,9 @@ std::vector<int64_t> tids(const std::vector<dj::track>& v)
     for (auto& c : v) r.push_back(c.id());
     return r;
 }
-}  // namespace
+}  // namespace lib
+}  // namespace djv
+using namespace djv::lib;
 
 // ------------------------------------------------------------ database lifecycle
 DJV_CMD(create, "create")
